@@ -69,6 +69,25 @@ impl<const X: usize> KalmanState<X> {
     }
 }
 
+#[cfg(similari_verif)]
+impl<const X: usize> KalmanState<X> {
+    /// Verification hook: mean and covariance (column-major) as flat vectors.
+    pub fn verif_raw(&self) -> (Vec<f32>, Vec<f32>) {
+        (
+            self.mean.iter().copied().collect(),
+            self.covariance.iter().copied().collect(),
+        )
+    }
+
+    /// Verification hook: builds a state from flat mean and column-major covariance.
+    pub fn verif_from_raw(mean: &[f32], covariance: &[f32]) -> Self {
+        Self {
+            mean: SVector::<f32, X>::from_column_slice(mean),
+            covariance: SMatrix::<f32, X, X>::from_column_slice(covariance),
+        }
+    }
+}
+
 impl<const X: usize> TryFrom<KalmanState<X>> for Universal2DBox {
     type Error = Errors;
 
